@@ -105,6 +105,11 @@ func (sc *symCtx) sym(v ssa.Value, depth int) string {
 								}
 							}
 						}
+						// a parameter of the closure being rendered, captured by a callback nested in it
+						// (`slices.ContainsFunc(vs, func(x T) bool { v := val.(*T); ... })`)
+						if q.Parent() == sc.fn {
+							return "&" + sc.sym(q, depth+1)
+						}
 					case *ssa.Function, *ssa.MakeClosure, *ssa.Const:
 						return "&" + sc.sym(q, depth+1)
 					default:
